@@ -75,6 +75,9 @@ def main():
             sh("git worktree prune", REPO)
         print(f"[{name}] confirm: builds={meta['builds']} suite={meta['suite_with_change']} demo with={meta['demo_with_change']} without={meta['demo_without_change']}")
 
+    if os.environ.get("SEED_NO_CHECKS") == "1":   # confirmation only (several can run side by side)
+        json.dump(meta, open(meta_path, "w"), indent=1)
+        return
     # run the checks against /repo with the change applied
     rc, o = sh("git status --porcelain", REPO)
     assert o.strip() == "", "/repo not clean: " + o
